@@ -16,6 +16,7 @@ def run(repo, res, tier):
     encrules.rule_c12_config(repo, res)
     encrules.rule_c12_structure(repo, res)
     encrules.rule_level_forwarding(repo, res)
+    encrules.rule_align(repo, res)
     tablerules.rule_tb5(repo, res)
     encrules.rule_w1(repo, res, which=("symbol", "flags"))
     an = langrules.analyse(repo)
